@@ -416,8 +416,15 @@ def flatnum():
     return Shape("flatnum", [F("A", "req", "int64"), F("B", "req", "float64")], desc="two required numeric columns (large pages)")
 
 
+def replist():
+    return Shape("replist", [F("ID", "req", "int64"),
+                             F("L", "rep", [F("K", "req", "string"), F("B", "opt", "bool"), F("S", "opt", "string"), F("N", "opt", "int32"),
+                                            F("F", "opt", "float32"), F("U", "opt", "uint64"), F("T", "rep", "bool")])],
+                 desc="optional leaves of every kind inside a repeated group (several entries per record in an optional column)")
+
+
 def portfolio():
-    return [flat24(), person(), document(), opt3(), boolopt(), reqnest(), embedded_root(), mixnest(), flatnum()]
+    return [flat24(), person(), document(), opt3(), boolopt(), reqnest(), embedded_root(), mixnest(), flatnum(), replist()]
 
 
 def build_all():
